@@ -360,6 +360,18 @@ def field_access(path: Path, e: ast.AST | None, index: int | None = None, depth:
     return cur.id, tuple(chain)
 
 
+def expanded_value(path: Path) -> ast.expr | None:
+    """The returned/raised expression with every single-assignment local replaced by what it stands for."""
+    from .boolfn import path_condition
+    from .facts import _substitute
+
+    v = path.value
+    if v is None:
+        return None
+    _, defs = path_condition(path)
+    return _substitute(v, defs) or v
+
+
 def denotes(path: Path, e: ast.AST | None, subject: str, access: tuple[str, ...], index: int | None = None) -> bool:
     """Does ``e`` denote ``<subject>.<access...>`` on this path?"""
     fa = field_access(path, e, index)
